@@ -515,6 +515,8 @@ type frontend interface {
 // slice, a dynamic type that cannot be compared with == (values are opaque to a cache).
 type boxedVal []string
 
+func init() { cache.GobRegister(boxedVal{}) }
+
 func box(v interface{}) interface{} {
 	if s, ok := v.(string); ok {
 		return boxedVal{s}
